@@ -112,6 +112,11 @@ func port(proto corev1.Protocol, n int) networkv1.NetworkPolicyPort {
 	return networkv1.NetworkPolicyPort{Protocol: &proto, Port: &p}
 }
 
+func portNoProto(n int) networkv1.NetworkPolicyPort {
+	p := intstr.FromInt(n)
+	return networkv1.NetworkPolicyPort{Port: &p}
+}
+
 func np(ns, name string, podSel *metav1.LabelSelector, types []networkv1.PolicyType, in []networkv1.NetworkPolicyIngressRule, eg []networkv1.NetworkPolicyEgressRule) *networkv1.NetworkPolicy {
 	return &networkv1.NetworkPolicy{ObjectMeta: metav1.ObjectMeta{Name: name, Namespace: ns},
 		Spec: networkv1.NetworkPolicySpec{PodSelector: *podSel, PolicyTypes: types, Ingress: in, Egress: eg}}
@@ -147,7 +152,10 @@ func policyMenu() map[string]*networkv1.NetworkPolicy {
 		"in-ns2":         np("ns2", "in-ns2", sel("app", "web"), tIn, []networkv1.NetworkPolicyIngressRule{{From: []networkv1.NetworkPolicyPeer{peerPod("role", "client")}}}, nil),
 		"in-ports-only":  np("ns1", "in-ports-only", sel("app", "web"), tIn, []networkv1.NetworkPolicyIngressRule{{Ports: []networkv1.NetworkPolicyPort{port(corev1.ProtocolTCP, 80)}}}, nil),
 		"in-ns-and-pod":  np("ns1", "in-ns-and-pod", sel("app", "web"), tIn, []networkv1.NetworkPolicyIngressRule{{From: []networkv1.NetworkPolicyPeer{{NamespaceSelector: sel("team", "b"), PodSelector: sel("role", "client")}}}}, nil),
-		"in-allow-all":   np("ns1", "in-allow-all", sel("app", "web"), tIn, []networkv1.NetworkPolicyIngressRule{{}}, nil),
+		// the same port number under both protocols; a port without protocol (TCP) next to the same number under UDP
+		"in-port-both-protos": np("ns1", "in-port-both-protos", sel("app", "web"), tIn, []networkv1.NetworkPolicyIngressRule{{From: []networkv1.NetworkPolicyPeer{peerBlock("10.9.0.0/16", "10.9.1.0/24")}, Ports: []networkv1.NetworkPolicyPort{port(corev1.ProtocolTCP, 53), port(corev1.ProtocolUDP, 53), port(corev1.ProtocolTCP, 81)}}}, nil),
+		"eg-port-nil-proto":   np("ns1", "eg-port-nil-proto", sel("app", "db"), tEg, nil, []networkv1.NetworkPolicyEgressRule{{Ports: []networkv1.NetworkPolicyPort{portNoProto(80), port(corev1.ProtocolUDP, 80), port(corev1.ProtocolUDP, 53)}}}),
+		"in-allow-all":        np("ns1", "in-allow-all", sel("app", "web"), tIn, []networkv1.NetworkPolicyIngressRule{{}}, nil),
 		// wider versions of two shapes under the SAME object name: going from the wide to the narrow version only removes set members
 		"in-ipblock@wide": np("ns1", "in-ipblock", sel("app", "web"), tIn, []networkv1.NetworkPolicyIngressRule{{From: []networkv1.NetworkPolicyPeer{peerBlock("10.9.0.0/16", "10.9.1.0/24", "10.9.0.5/32"), peerBlock("172.16.0.0/16")}, Ports: []networkv1.NetworkPolicyPort{port(corev1.ProtocolTCP, 80), port(corev1.ProtocolUDP, 53)}}}, nil),
 		"eg-ipblock@wide": np("ns1", "eg-ipblock", sel("app", "db"), tEg, nil, []networkv1.NetworkPolicyEgressRule{{To: []networkv1.NetworkPolicyPeer{peerBlock("10.9.0.0/16", "10.9.1.0/24", "10.9.2.7/32", "10.9.0.5/32"), peerBlock("172.16.0.0/16")}}}),
